@@ -8,6 +8,7 @@ import YashModel.Common.Proto
 import YashModel.Alias.Model
 import YashModel.Alias.Grammar
 import YashModel.Alias.Spec
+import YashModel.Alias.Refine
 open YashModel YashModel.Alias YashModel.Proto
 
 def parseEntry (e : String) : Option Alias :=
@@ -69,6 +70,9 @@ def runLine (line : String) : String :=
     -- the by-hand line machine with its origin log (`hlrunC_l`: the log does not change the run)
     let hc := hlrunC (lineFuel T cs) { l := { T := T, h := { rest := cs } } }
     let hl := hc.l
+    -- the certificate of `line_model_eq_spec_checked`: model and by-hand machine choose the same alias at every step
+    if !lagreeB (lineFuel T cs) { T := T, m := init cs } { T := T, h := { rest := cs } } then
+      observe l.m.toks.reverse l.m.hd l.m.text l.m.origins l.finalTable ++ "\t=LAGREE-FAILED" else
     observe l.m.toks.reverse l.m.hd l.m.text l.m.origins l.finalTable ++ "\t=" ++
       observe hl.h.toks.reverse hl.h.hd (hl.h.out.reverse ++ hl.h.rest) hc.origins hl.finalTable
 
